@@ -92,8 +92,8 @@ PROP = dict(
     rule="case = one complete execution (schedule) of a scenario in a forked child; all executions are distinct schedules and non-trivial "
          "(>= 2 managed threads running real library code); states = scenarios + distinct result vectors observed; transitions = scheduling "
          "decisions taken at choice points + executions; traces_validated_against_impl = executions (each IS a run of the implementation)",
-    bounds=dict(quick="46 scenarios; total preemptions <= 2 (1 for the long free-function mixes), at atomics <= 1; plan objects built in a thread that exits, used later from main and new threads (10 plan kinds x 5 histories x 3 users); thread-lifetime histories: all sequences of <= 3 events over {S(p), M(p), O(p,q)} x 5 programs (43k histories with a thread)",
-                thorough="46 scenarios; total preemptions <= 3 (2 for the long mixes), at atomics <= 2 (1 for scenarios whose root execution has > 150 choice points); thread-lifetime histories as quick plus all length-4 sequences over S/M; plus 200 free-running iterations under stock TSan (auxiliary sample)"),
+    bounds=dict(quick="48 scenarios; total preemptions <= 2 (1 for the long free-function mixes), at atomics <= 1; plan objects built in a thread that exits, used later from main and new threads (10 plan kinds x 5 histories x 3 users); thread-lifetime histories: all sequences of <= 3 events over {S(p), M(p), O(p,q)} x 5 programs (43k histories with a thread)",
+                thorough="48 scenarios; total preemptions <= 3 (2 for the long mixes), at atomics <= 2 (1 for scenarios whose root execution has > 150 choice points); thread-lifetime histories as quick plus all length-4 sequences over S/M; plus 200 free-running iterations under stock TSan (auxiliary sample)"),
     deadline=dict(quick=200, thorough=2400),
     mc_note="no separate model: every explored schedule is an execution of the implementation under the schedex runtime; a failing schedule is replayed once more before it is reported",
     assumptions=COMMON_ASSUME + [
